@@ -5,7 +5,7 @@
 //! only to identify *which* emissions are timeout retransmissions and what the RTO was.
 use std::collections::BTreeMap;
 
-use librqbit_utp::verif::{ProbeEvent, RtoCall};
+use librqbit_utp::verif::{CcCall, ProbeEvent, RtoCall};
 
 use super::{
     pw::{covers, PeerWorld, X},
@@ -70,6 +70,8 @@ pub fn check(sc: &Scenario, out: &RunOutput) -> OracleResult {
     let mut in_rto_mode = false;
     let mut recovering = false;
     let mut last_flight: usize = 0;
+    let mut last_rwnd: Option<u32> = None;
+    let w_mss_floor = w.mss_floor;
     let mut timeouts = 0u64;
     let mut fast_rtx = 0u64;
     let mut cap_hit = false;
@@ -89,6 +91,9 @@ pub fn check(sc: &Scenario, out: &RunOutput) -> OracleResult {
     // model of when the retransmission timer was last (re)started (RFC 6298 5.1/5.3/5.6): an ACK
     // of new data restarts it (or stops it when nothing sent is left un-acked), a transmission
     // starts it only when it is not running, an expiry restarts it
+    let mut rec_point: Option<u16> = None;
+    let mut leave_due: Option<T> = None;
+    let mut recovery_entries = 0u64;
     let mut timer_start: Option<T> = None;
     // last ACK of new data that left nothing sent un-acknowledged (the timer should be off)
     let mut idle_ack_t: Option<T> = None;
@@ -104,6 +109,20 @@ pub fn check(sc: &Scenario, out: &RunOutput) -> OracleResult {
             }
         }
         match x {
+            // loss recovery is entered with everything sent so far as its recovery point and is
+            // left by the acknowledgement that covers that point (or by a timeout)
+            X::Probe(ProbeEvent::Cc { key, call, .. }) if key.is_some_and(|k| k.local == w.e) => match call {
+                CcCall::OnEnterRecovery => {
+                    rec_point = next_unsent.map(|n| n.wrapping_sub(1));
+                    leave_due = None;
+                    recovery_entries += 1;
+                }
+                CcCall::OnRecovered { .. } | CcCall::OnRto => {
+                    rec_point = None;
+                    leave_due = None;
+                }
+                _ => {}
+            },
             X::Probe(ProbeEvent::Rto { key, call, rto_after, .. }) => {
                 if key.is_some_and(|k| k.local == w.e) {
                     rto_now = rto_after.as_nanos() as T;
@@ -113,6 +132,16 @@ pub fn check(sc: &Scenario, out: &RunOutput) -> OracleResult {
                 }
             }
             X::Snap(s) => {
+                if let Some(tl) = leave_due {
+                    if s.recovering && !hostile && s.finished.is_none() {
+                        res.violate(P, "recovery-not-left-at-full-ack", tl, format!("loss recovery was entered with seq {:?} as the highest sent; an acknowledgement covering it was delivered at {} but the connection is still in recovery at the end of that poll (duplicate ACKs are not counted while it lasts: the next loss waits for the timeout)", rec_point, crate::hist::fmt_t(tl)));
+                    }
+                    leave_due = None;
+                    rec_point = None;
+                }
+                if !s.recovering {
+                    rec_point = None;
+                }
                 in_rto_mode = s.rto_retransmissions > 0;
                 // the acknowledgement that ends a recovery episode is not a duplicate: counting
                 // starts afresh after it (RFC 6582 full acknowledgement)
@@ -122,6 +151,7 @@ pub fn check(sc: &Scenario, out: &RunOutput) -> OracleResult {
                 }
                 recovering = s.recovering;
                 last_flight = s.flight_size;
+                last_rwnd = Some(s.last_remote_window);
                 if s.finished.is_some() && task_over.is_none() {
                     task_over = Some(t);
                     if let Some(Some(e)) = &s.finished {
@@ -182,9 +212,19 @@ pub fn check(sc: &Scenario, out: &RunOutput) -> OracleResult {
                 if pending_fast.is_some_and(|(_, s, _)| segs.get(&s).is_some_and(|g| g.acked_at.is_some())) {
                     pending_fast = None;
                 }
+                // (the acknowledgement that completes a timeout recovery is itself still ignored
+                // for duplicate counting: counting starts with the next one)
+                let was_in_rto_recovery = rto_recovery_point.is_some();
                 if let Some(rp) = rto_recovery_point {
                     if seq_diff(p.ack, rp) >= 0 {
                         rto_recovery_point = None;
+                        plain_dups = 0;
+                        sack_in_row = 0;
+                    }
+                }
+                if let Some(rp) = rec_point {
+                    if seq_diff(p.ack, rp) >= 0 && leave_due.is_none() {
+                        leave_due = Some(t);
                     }
                 }
                 // (c) duplicate-ACK / SACK evidence
@@ -227,7 +267,7 @@ pub fn check(sc: &Scenario, out: &RunOutput) -> OracleResult {
                         // a size probe that expired was taken back (popped, un-sent): nothing is
                         // in flight for the sender although the wire shows the sequence number
                         let popped_probe = last_flight == 0 && segs.get(&fu).is_some_and(|g| g.probe);
-                        let busy = in_rto_mode || recovering || rto_recovery_point.is_some() || hostile || backpressure || popped_probe;
+                        let busy = in_rto_mode || recovering || was_in_rto_recovery || hostile || backpressure || popped_probe;
                         if !busy && pending_fast.is_none() {
                             pending_fast = Some((t, fu, why));
                         }
@@ -397,7 +437,10 @@ pub fn check(sc: &Scenario, out: &RunOutput) -> OracleResult {
     // (a) liveness half: an un-acked first segment IS retransmitted: at the end of the run no
     // data segment stays un-acked on a living, non-window-stuck connection without any
     // retransmission for longer than 60 s + slack
-    if task_over.is_none() && !hostile {
+    // (a connection facing a closed or too narrow window sends one segment per - backed-off -
+    // timeout at best: F6/F15 territory, not a retransmission question)
+    let window_stuck = last_rwnd.is_some_and(|w| (w as usize) < w_mss_floor);
+    if task_over.is_none() && !hostile && !window_stuck {
         for (s, g) in &segs {
             if g.acked_at.is_none() {
                 let last = g.tx.last().unwrap().0;
@@ -413,6 +456,7 @@ pub fn check(sc: &Scenario, out: &RunOutput) -> OracleResult {
     res.probe("timeout_retransmissions", timeouts);
     res.probe("fast_retransmissions", fast_rtx);
     res.probe("fast_retransmit_triggers", fast_triggers);
+    res.probe("recovery_entries", recovery_entries);
     res.hit("retransmission_cap_hit", cap_hit);
     res.hit("probe_resegmented", segs.values().any(|g| g.probe && g.tx.iter().any(|x| x.1 != g.first_payload.len())));
     res.relevant = timeouts > 0 && fast_rtx > 0;
